@@ -162,9 +162,15 @@ fn enc_archive(r: &mut Rng) -> (Vec<u8>, Vec<u8>) {
     }
 }
 
-/// a `kind=interrupted` fault on an op whose model does not describe std's retry loops
+/// a `kind=interrupted` fault the model does not describe: a write scenario with COMPRESSING entries.  The encoders
+/// (flate2, bzip2, zstd) hand their output to the sink in loops of their own, which do not retry `Interrupted`
+/// (`zio::Writer::dump`: `self.obj.write(&self.buf)?`), and their destructors write again; the writer model coalesces an
+/// encoder's output into ONE `write_all` (I/O inside codecs is opaque, DESIGN R8), which at `MI` would retry.  Judged by
+/// the oracle alone.  Everything else - stored and ZipCrypto entries, every header / directory write, `new_append`,
+/// the seekable reader, the streaming ops - is compared with the `MI` / `M.retried` models.
 fn intr_unmodelled(op: &str, a: &std::collections::BTreeMap<String, String>) -> bool {
-    (op == "fault.read" || op == "fault.write") && a.get("kind").map(|s| s.as_str()) == Some("interrupted") && a.get("k").map(|s| s.as_str()) != Some("none")
+    op == "fault.write" && a.get("kind").map(|s| s.as_str()) == Some("interrupted") && a.get("k").map(|s| s.as_str()) != Some("none")
+        && a.get("comp").map(|s| s.as_str() != "-" && !s.is_empty()).unwrap_or(false)
 }
 
 fn k_of(a: &std::collections::BTreeMap<String, String>) -> Flt {
@@ -628,7 +634,7 @@ impl Stream for Fault {
 
     fn gen(&self, seed: u64, tier: &str) -> GenOut {
         let mut g = GenOut::default();
-        g.rule = "scenarios: (read) open + read every entry of small stored archives from the independent builder (prefix, ZIP64 end records, descriptors, comments) and the writer; (write) stored call sequences incl. directories, symlinks, extra data (local and central-only), comments, aligned entries, raw copies into the faulting sink, Write::flush (stored entries, extra-data mode, closed writer), finish/drop, second finish, and append onto bases (writer-made and from the independent builder) - one `fam.<family>` counter each; compressing / ZipCrypto entries with the codec tables; for each scenario the fault-free run and then a hard error injected at EVERY I/O call index k (exhaustive per scenario), its io::ErrorKind rotating over 8 kinds incl. Interrupted (`kind.*` counters; scenarios that open an archive: every k also with InvalidInput, the kind get_directory_counts inspects; Interrupted is compared with the model on the streaming ops - M.retried - and judged by the oracle alone on fault.read / fault.write); (stream) read_zipfile_from_stream with a consumer that asks for `consume` bytes of each entry and drops it, compared call by call with Model.streamEntryCI (stored entries exact; deflate / bzip2 / zstd entries with the decoders' measured pull pattern pulled= / cbuf=; one nested-archive scenario behind 64 KiB drain reads = K-J, one incompressible entry spanning several decoder pulls and drain reads), and the same streams through ZipStreamReader::visit (fault.visit, Model.visitFile / drainE / visitCentral: no known finding there). non-trivial = a fault run (k given)".into();
+        g.rule = "scenarios: (read) open + read every entry of small stored archives from the independent builder (prefix, ZIP64 end records, descriptors, comments) and the writer; (write) stored call sequences incl. directories, symlinks, extra data (local and central-only), comments, aligned entries, raw copies into the faulting sink, Write::flush (stored entries, extra-data mode, closed writer), finish/drop, second finish, and append onto bases (writer-made and from the independent builder) - one `fam.<family>` counter each; compressing / ZipCrypto entries with the codec tables; for each scenario the fault-free run and then a hard error injected at EVERY I/O call index k (exhaustive per scenario), its io::ErrorKind rotating over 8 kinds incl. Interrupted (`kind.*` counters; scenarios that open an archive: every k also with InvalidInput, the kind get_directory_counts inspects; Interrupted is compared with the model everywhere: the streaming ops - M.retried -, fault.read - the MI instance of the generic parsers, openArchiveI + byIndexReadB with a bare-read consumer -, fault.write - the generic writer GW at MI: write_all retries, seek / flush are bare, newAppendI; only write scenarios with COMPRESSING entries are judged by the oracle alone under Interrupted, the encoders' own output loops do not retry); (stream) read_zipfile_from_stream with a consumer that asks for `consume` bytes of each entry and drops it, compared call by call with Model.streamEntryCI (stored entries exact; deflate / bzip2 / zstd entries with the decoders' measured pull pattern pulled= / cbuf=; one nested-archive scenario behind 64 KiB drain reads = K-J, one incompressible entry spanning several decoder pulls and drain reads), and the same streams through ZipStreamReader::visit (fault.visit, Model.visitFile / drainE / visitCentral: no known finding there). non-trivial = a fault run (k given)".into();
         let nscen = if tier == "thorough" { 2000 } else { 80 };
         // a writer-made archive: a plain call sequence, finished
         let finished = |r: &mut Rng| -> Vec<u8> {
@@ -763,16 +769,27 @@ impl Stream for Fault {
                 }
             }
         }
+        // how the `Interrupted` lines are judged: compared with the models with std's convention, or (compressing write
+        // scenarios only) by the oracle alone
+        let mut intr = (0u64, 0u64);
+        for l in &g.ops {
+            let (op, a) = parse_line(l);
+            if a.get("kind").map(|s| s.as_str()) == Some("interrupted") && !op.ends_with('o') && op != "fault.enc" && op != "fault.writec" && op != "fault.rawcopy" {
+                if intr_unmodelled(&op, &a) { intr.1 += 1 } else { intr.0 += 1 }
+            }
+        }
+        g.dist.insert("interrupted.compared".into(), intr.0);
+        g.dist.insert("interrupted.oracle-only-compressing".into(), intr.1);
         g
     }
 
     fn run(&self, line: &str) -> String {
         let (op, a) = parse_line(line);
         let k = k_of(&a);
-        // `Interrupted` inside std's retry loops is described by the model only for the streaming ops (`M.retried`);
-        // `Model.readExact` / `writeAll` treat every kind as a hard failure (known model limitation, DESIGN R9): on the
-        // seekable reader and the writer such a fault is judged by the oracle alone
         if intr_unmodelled(&op, &a) { return "oracle-only".into(); }
+        // `Interrupted` inside std's retry loops is described by the model for the streaming ops (`M.retried`) and the
+        // seekable reader (`Model/Interrupted.lean`: the generic parsers at `MI`; this harness's own entry-reading loop in
+        // `run_read` is a bare `read` loop, which does not retry - modelled as such: `byIndexReadB`)
         match op.as_str() {
             "fault.read" => {
                 let (s, n) = run_read(get_hex(&a, "bytes").unwrap_or_default(), k);
